@@ -220,33 +220,46 @@ func runC12(c *Ctx) {
 			for _, e := range edges {
 				n := 0
 				for _, ev := range f.Calls("(*dht.IpfsDHT).peerStoppedDHT") {
-					if g, _ := cf.Guarded(cf.LocOf(ev), func(ft eng.Fact) bool { return ft.ErrOf(false, step) }); !g {
-						continue
-					}
-					n++
-					gAlive, _ := cf.Guarded(cf.LocOf(ev), func(ft eng.Fact) bool {
-						x, isNilF, ok := ft.NilFact()
-						if !ok || !isNilF {
+					// an eviction shared by both steps through a helper stands once per call of the helper
+					for _, at := range cf.Clones(cf.LocOf(ev)) {
+						if !cf.GuardedAt(at, func(ft eng.Fact) bool { return ft.ErrOf(false, step) }) {
+							continue
+						}
+						n++
+						gAlive := cf.GuardedAt(at, func(ft eng.Fact) bool {
+							x, isNilF, ok := ft.NilFact()
+							if !ok || !isNilF {
+								return false
+							}
+							call, isErr := eng.IsCallTo(info, x, "(context.Context).Err")
+							if !isErr {
+								return false
+							}
+							s, _ := eng.Unparen(call.Fun).(*ast.SelectorExpr)
+							if s == nil {
+								return false
+							}
+							if eng.IsObj(info, s.X, ctxObj) {
+								return true
+							}
+							// the helper's context parameter, bound to the step's context at this call
+							if arg := cf.ArgAt(at, eng.ObjOf(info, s.X)); arg != nil {
+								return eng.IsObj(info, arg, ctxObj)
+							}
 							return false
+						})
+						// no other condition narrows the eviction
+						extra := 0
+						for _, ce := range cf.DominatingCondsAt(at) {
+							b, isB := eng.Unparen(ce.Cond).(*ast.BinaryExpr)
+							if isB && (isNil(info, b.Y) || isNil(info, b.X)) {
+								continue // error tests of the steps and the ctx.Err() test
+							}
+							extra++
 						}
-						call, isErr := eng.IsCallTo(info, x, "(context.Context).Err")
-						if !isErr {
-							return false
-						}
-						s, _ := eng.Unparen(call.Fun).(*ast.SelectorExpr)
-						return s != nil && eng.IsObj(info, s.X, ctxObj)
-					})
-					// no other condition narrows the eviction
-					extra := 0
-					for _, ce := range cf.DominatingConds(cf.LocOf(ev)) {
-						b, isB := eng.Unparen(ce.Cond).(*ast.BinaryExpr)
-						if isB && (isNil(info, b.Y) || isNil(info, b.X)) {
-							continue // error tests of the steps and the ctx.Err() test
-						}
-						extra++
+						c.Check(K(f.Name, "evict after failed "+step), ev.Pos(), gAlive && extra == 0 && eng.IsObj(info, ev.Args[0], pp),
+							"a peer that failed this step is evicted exactly when the context that governed the step is still alive", "eviction not guarded by <step's ctx>.Err() == nil, guarded by more, or evicting another peer")
 					}
-					c.Check(K(f.Name, "evict after failed "+step), ev.Pos(), gAlive && extra == 0 && eng.IsObj(info, ev.Args[0], pp),
-						"a peer that failed this step is evicted exactly when the context that governed the step is still alive", "eviction not guarded by <step's ctx>.Err() == nil, guarded by more, or evicting another peer")
 				}
 				c.Check(K(f.Name, "eviction exists for "+step), e.Fact.Pos(), n == 1, "a failed step can evict the peer", "found "+itoa(n)+" evictions on its error edge")
 			}
